@@ -215,6 +215,14 @@ func (r *Report) Finish() int {
 	for _, o := range r.Obs {
 		allKeys = append(allKeys, o.Verdict[:1]+" "+o.Key)
 	}
+	ruleGroups := map[string]int{}
+	for _, o := range r.Obs {
+		k := o.Key
+		if i := strings.Index(k, ":"); i > 0 {
+			k = k[:i]
+		}
+		ruleGroups[k]++
+	}
 	ev := map[string]interface{}{
 		"property_id": r.Prop,
 		"tier":        r.Tier,
@@ -224,7 +232,8 @@ func (r *Report) Finish() int {
 		"violations":  viol,
 		"assumptions": r.Assume,
 		"coverage": map[string]interface{}{
-			"explanation":         r.Explain,
+			"explanation":         r.Explain + " — Beyond the clauses named here, the rules added while arming independently seeded changes (DESIGN.md 8.5, rounds 1-11) are evaluated on every run; each evaluated rule instance is listed under obligation_keys (prefix d = discharged, v = violated, k = known finding, u = undecided) and counted per rule kind under rule_groups.",
+			"rule_groups":         ruleGroups,
 			"obligations":         len(r.Obs),
 			"discharged":          disch,
 			"evaluations":         len(r.Obs),
